@@ -351,6 +351,28 @@ def v4_parameter_translation(ctx) -> None:
         else:
             ctx.violation("V4", f, "DisjointUnion.get_extra_parameters must read parameters[<parent name>] and write <result>[<child name>] (components of "
                           "table.items() in that order), starting from self.fixed_values of the same child", construct="DisjointUnion.get_extra_parameters")
+    # ... and the result has exactly one entry per child, on every path (None for a child that cannot match):
+    # the consumers pair it with the children by position
+    if loops:
+        lp0 = loops[0]
+        rets0 = [r for r in C.returns_of(f) if r.value is not None and isinstance(r.value, ast.Name)]
+        if rets0:
+            res0 = rets0[0].value.id
+
+            def _is_app(x, res0=res0):
+                return isinstance(x, ast.Call) and isinstance(x.func, ast.Attribute) and x.func.attr == "append" and isinstance(x.func.value, ast.Name) and x.func.value.id == res0
+
+            exits = C._exits(lp0.body, _is_app, 0, 0)
+            bad = [(k, kind, w) for k, kind, w in exits if kind in ("fall", "continue") and k != 1]
+            if any(kind == "break" for _k, kind, _w in exits):
+                bad.append((0, "break", lp0))
+            if bad:
+                k, kind, w = bad[0]
+                ctx.violation("V4", w if w is not None else lp0, f"DisjointUnion.get_extra_parameters: one iteration over the children can end ({kind}) with {k} entries added to "
+                              f"`{res0}`: the result must have exactly one entry per child (None for a child whose parameters contradict), the sampler and the counts "
+                              "pair it with the children by position")
+            else:
+                ctx.ok("V4", "DisjointUnion.get_extra_parameters adds exactly one entry per child on every path")
     m = P.need_method("CartesianProduct", "get_extra_parameters", own=True)
     f = m.node
     ctx.analysed(m)
